@@ -63,6 +63,8 @@ int main(int argc, char **argv) {
         if (rank == 0) { fprintf(g_out, "B %llu\n", (unsigned long long) i); fflush(g_out); }
         int dim = cycle_space_dim(s);
         {
+            { std::set<std::pair<int, int>> seen; bool bad = false; for (auto &e : s.edges) if (e.u == e.v || e.w <= 0 || e.u >= s.n || e.v >= s.n || !seen.insert({std::min(e.u, e.v), std::max(e.u, e.v)}).second) bad = true;
+              if (bad) { if (rank == 0) { fprintf(g_out, "X {\"msg\":\"generator left the domain in h_mpi, family %s\"}\n", s.family.c_str()); fflush(g_out); } world.abort(2); } }
             G g(s.n); WM w = boost::get(boost::edge_weight, g);
             vscr::begin(scramble, mix(lseed, (uint64_t) rank + 1), 2 * s.edges.size() + 3 * (size_t) s.n + 64);
             for (auto &e : s.edges) { auto x = boost::add_edge(e.u, e.v, g).first; w[x] = to_weight<double>(s, e.w); }
